@@ -12,6 +12,7 @@ func init() {
 	verifRegister("harness_C20_bytes", harness_C20_bytes)
 	verifRegister("harness_C20_template", harness_C20_template)
 	verifRegister("harness_C20_roundtrip", harness_C20_roundtrip)
+	verifRegister("harness_C20_concrete", harness_C20_concrete)
 }
 
 // The process environment is empty in the model: nothing to substitute.
@@ -36,7 +37,7 @@ func stubRemoveEnv(s string) string {
 
 // In-string macro expansion is a regexp: outside the claim.
 //
-//verif:stub (*github.com/foxcpp/maddy/framework/cfgparser.parseContext).expandSingleValueMacro
+//verif:stub (*github.com/foxcpp/maddy/framework/cfgparser.parseContext).expandSingleValueMacro @!harness_C20_concrete
 func stubExpandSingle(ctx *parseContext, arg string) (string, error) {
 	verifCover("C20.outside-in-string-macro")
 	verifStop()
@@ -147,6 +148,8 @@ var c20Templates = []string{
 	"a {\n c ? }\nb ?\n",
 	"a \"?\\\n?\" x\nb ?\n",
 	"a { b { ? } }\nc\n",
+	// an import nested in a block of a snippet body
+	"(t) {\n x ?\n}\n(s) {\n blk {\n  import t\n }\n}\na {\n import s\n ?\n}\n",
 }
 
 // names of the top-level directives a successful parse of the template must
@@ -286,4 +289,27 @@ func harness_C20_roundtrip() {
 		verifFail("C20.roundtrip-differs")
 	}
 	verifCover("C20.roundtrip-end")
+}
+
+// Concrete regression inputs for the parts of the parser that are cut from the
+// symbolic runs (regexp-driven in-string macro expansion): executed by the
+// engine without symbolic content; a crash is a violation, an accepted tree
+// must be well-formed.
+var c20Concrete = []string{
+	"$(foo) = $(undef)\ndir x$(foo)y\n",
+	"$(foo) = 1\ndir x$(foo)y $(foo)\n",
+	"$(foo) = 1 2\ndir x$(foo)y\n",
+	"dir x$(undef)y\n",
+	"$(a) = $(a)\ndir $(a) x$(a)\n",
+}
+
+func harness_C20_concrete() {
+	k := nondetChoice("input", len(c20Concrete))
+	nodes, err := Read(bytes.NewReader([]byte(c20Concrete[k])), "verif.conf")
+	if err != nil {
+		verifCover("C20.concrete-error")
+		return
+	}
+	c20CheckTree(nodes, 1)
+	verifCover("C20.concrete-tree")
 }
